@@ -437,6 +437,25 @@ def r6(ctx):
             ctx.bad(f'Meta.{name}', 'no-route', 'does not insert through the whitelisted __setitem__', f.loc())
         else:
             ctx.ok(f'Meta.{name}', 'inserts only through the whitelist test')
+    # the constructor hands every (key, value) pair of its input to the whitelisting __setitem__, key first
+    init, seti = ci.methods.get('__init__'), ci.methods.get('__setitem__')
+    if init is not None and seti is not None:
+        from ..vg import DictV
+        cases = (('a dict', DictV([{'label': Const('x'), 'text': Const('y')}]), {}),
+                 ('a list of pairs', Tup((Tup((Const('label'), Const('x'))), Tup((Const('text'), Const('y')))), 'list'), {}),
+                 ('keyword arguments', Const(None), {'label': Const('x'), 'text': Const('y')}))
+        wrong = []
+        for label, seq, kw in cases:
+            rec = []
+            ev = Evaluator(m, hooks={seti.qualname: lambda e, a, k, rec=rec: (rec.append((show(a[1]), show(a[2]))), Const(None))[1]})
+            ev.run(init, [Obj('RegionMeta', {}, None, m.cls('RegionMeta')), seq], kw)
+            if rec != [("'label'", "'x'"), ("'text'", "'y'")]:
+                wrong.append((label, rec))
+        if wrong:
+            ctx.bad('Meta.__init__', 'pair-order', f'constructed from {wrong[0][0]} the entries are inserted as {wrong[0][1]}, not '
+                    "(key, value) in order", init.loc())
+        else:
+            ctx.ok('Meta.__init__:pairs', 'dict, list of pairs and keywords are inserted as (key, value) through __setitem__')
     # aliases: entries live under the mapped key, so a presence test on the raw key misses them
     for name, f in sorted(ci.methods.items()):
         fn = f.node
